@@ -317,17 +317,20 @@ class SgzConverter(SgzReader):
         # The format code is the big-endian 16-bit field at bytes 3225-3226 (1-based) of the SEG-Y file header
         format_code_bytes = slice(DISK_BLOCK_BYTES + 3224, DISK_BLOCK_BYTES + 3226)
         data_sample_format_code = int.from_bytes(self.headerbytes[format_code_bytes], 'big')
+        headerbytes = self.headerbytes
         if data_sample_format_code in [1, 5]:
             spec.format = data_sample_format_code
         else:
+            # Only the exported file gets the new format code, this object's own header is left as read
             new_headerbytes = bytearray(self.headerbytes)
             new_headerbytes[format_code_bytes] = (1).to_bytes(2, 'big')
-            self.headerbytes = bytes(new_headerbytes)
+            headerbytes = bytes(new_headerbytes)
             spec.format = 1
 
-        self.write_segy(spec, out_file)
+        self.write_segy(spec, out_file, headerbytes)
 
-    def write_segy(self, spec, out_file):
+    def write_segy(self, spec, out_file, headerbytes=None):
+        headerbytes = self.headerbytes if headerbytes is None else headerbytes
 
         with warnings.catch_warnings():
             # segyio will warn us that out padded cube is not contiguous. This is expected, and safe.
@@ -341,7 +344,7 @@ class SgzConverter(SgzReader):
                 segyfile.header = [self.regenerate_trace_header(i) for i in range(self.tracecount)]
 
         with open(out_file, "r+b") as f:
-            f.write(self.headerbytes[DISK_BLOCK_BYTES: DISK_BLOCK_BYTES + SEGY_FILE_HEADER_BYTES])
+            f.write(headerbytes[DISK_BLOCK_BYTES: DISK_BLOCK_BYTES + SEGY_FILE_HEADER_BYTES])
 
     def convert_to_adv_sgz(self, out_file):
         assert(self.rate == 2)
